@@ -31,9 +31,9 @@ def _hll_args(tier, seed, k, profile):
     serde = 15 if profile == "serde" else 4
     if tier == Q:
         return ["--seed", seed, "--segments", 5, "--events", 900 + 200 * (k % 4), "--minlgk", 4,
-                "--maxlgk", 12 if k % 4 == 0 else 10, "--serde", serde]
+                "--maxlgk", 12 if k % 4 == 0 else 10, "--serde", serde, "--hilo", 17, "--hihi", 18 if k % 2 else 19]
     return ["--seed", seed, "--segments", 6, "--events", 2500 + 500 * (k % 5), "--minlgk", 4,
-            "--maxlgk", 14 if k % 6 == 0 else 12, "--serde", serde]
+            "--maxlgk", 14 if k % 6 == 0 else 12, "--serde", serde, "--hilo", 17, "--hihi", 21]
 
 _HLL = dict(harness="hll_rec", inc=["common", "hll"], spec="TraceHll", files={Q: 8, T: 40}, args=_hll_args,
             nontrivial=hll_nontrivial, heap="4g")
@@ -45,6 +45,7 @@ HLL_MC = [
     dict(module="MC_HllDesign", cfg="MC_HllDesign_set.cfg", workers=1),
     dict(module="MC_HllDesign", cfg="MC_HllDesign_full.cfg", workers=1),
     dict(module="MC_Hll", cfg="MC_Hll.cfg"),
+    dict(module="MC_Hll", cfg="MC_Hll_sparse.cfg"),
 ]
 
 @prop("C03", "model_checking",
@@ -98,9 +99,9 @@ def _hu_args(tier, seed, k, profile):
     serde = 12 if profile == "serde" else 4
     if tier == Q:
         return ["--seed", seed, "--segments", 22, "--minlgk", 4, "--maxlgk", 12 if k % 3 == 0 else 10,
-                "--cap", 5000 if k % 3 == 0 else 2500, "--serde", serde]
+                "--cap", 5000 if k % 3 == 0 else 2500, "--serde", serde, "--hilo", 17, "--hihi", 20]
     return ["--seed", seed, "--segments", 30, "--minlgk", 4, "--maxlgk", 14 if k % 5 == 0 else 12,
-            "--cap", 20000 if k % 5 == 0 else 8000, "--serde", serde]
+            "--cap", 20000 if k % 5 == 0 else 8000, "--serde", serde, "--hilo", 17, "--hihi", 20]
 
 _HU = dict(harness="hllunion_rec", inc=["common", "hll"], spec="TraceHllUnion", files={Q: 8, T: 40}, args=_hu_args,
            nontrivial=hllunion_nontrivial, heap="4g")
